@@ -267,7 +267,8 @@ PROPS["C10"] = dict(
 
 PROPS["C20"] = dict(
     modules=["common", "hdrs", "c03", "c02", "c05", "c20"],
-    contracts=["wsgi.ensure_next", "Headers.__init__", "asgi.StreamingResponse.__call__"],
+    contracts=["wsgi.ensure_next", "wsgi.NextResponse.from_app", "Headers.__init__", "Headers.__init__[mapping]",
+               "asgi.StreamingResponse.__call__"],
     refute={"quick": [2], "thorough": [1, 2, 3]},
     native="c20",
     level="other",
@@ -275,7 +276,11 @@ PROPS["C20"] = dict(
     level_text="Mixed. PROVED: the bytes produced by the WSGI body relay ensure_next concatenate to exactly the inner "
                "application's body (rest_from(0), the concatenation of all its chunks, defined by recursion and used through "
                "ground instances only), for re-iterable (list/tuple) and one-shot (generator) bodies of any length, including "
-               "empty bodies and empty leading chunks; Headers.__init__ keeps every header name that occurs once with its value (names occurring several times "
+               "empty bodies and empty leading chunks; NextResponse.from_app (WSGI; ensure_next executed inline) runs the inner "
+               "application exactly once, returns only after the application has called start_response - also for a "
+               "generator-style application, which does so when it is first advanced -, takes the status code from the status "
+               "line and the header mapping from the header list (Headers.__init__, also proved for the mapping-copy branch "
+               "used by MutableHeaders(headers)), and relays the body bytes; Headers.__init__ keeps every header name that occurs once with its value (names occurring several times "
                "are folded - the known finding); the ASGI StreamingResponse.__call__ that re-emits the relayed body is legal at "
                "every emission (from C05). BOUNDED (labelled): capture of status/headers, CachedStream, decorator/middleware "
                "wrappers and whole identity stacks of depth 0..3 over every response class and raw applications are compared "
@@ -284,8 +289,9 @@ PROPS["C20"] = dict(
                "(A-spool-1, bounded only). Known finding (open): NextResponse stores the inner headers in a mapping, so "
                "header names that occur several times (e.g. two Set-Cookie lines) arrive folded into one comma-joined line.",
     technique="deductive verification: relay contract over an abstract (re-)iterable with ghost output bytes, SMT; bounded differential run of identity stacks",
-    explanation="proved: ensure_next relay, Headers.__init__ single-occurrence clause, streaming re-emission legality; bounded: "
-                "status/header capture, ASGI CachedStream, decorator/middleware stacks.",
+    explanation="proved: ensure_next relay, WSGI from_app capture (status, headers, body, run-once, started-before-return), "
+                "Headers.__init__ (pair list and mapping copy), streaming re-emission legality; bounded: ASGI capture / "
+                "CachedStream, decorator/middleware stacks.",
 )
 
 PROPS["C16"] = dict(
